@@ -21,7 +21,7 @@ def gen_script(rng, cid, kind=None):
     ocap = max(cap, 1)
     ops = ["case %s" % cid, "fan.new %d" % cap]
     meta = []
-    kind = kind or rng.choice(["plain", "plain", "stuck", "stuck", "stuck-others", "churn"])
+    kind = kind or rng.choice(["plain", "plain", "stuck", "stuck", "stuck-others", "churn", "reuse"])
     labels = []
     alive = []
 
@@ -42,10 +42,28 @@ def gen_script(rng, cid, kind=None):
     def report():
         ops.append("fan.report")
         meta.append(("report",))
-    for _ in range(rng.choice([1, 2, 3])):
+    for _ in range(rng.choice([1, 2, 3]) if kind != "reuse" else rng.choice([3, 3, 4, 5])):
         spawn()
     ops.append("fan.feed %d" % rng.choice([1, 3, ocap, ocap + 3, 20]))
-    if kind in ("plain", "churn"):
+    if kind == "reuse":
+        # several devices leave in any order (not last-in-first-out: a middle one, then the newest), then as many or more
+        # arrive: every device still attached, and every new one, gets every message from its attachment on
+        for _ in range(rng.choice([1, 2])):
+            leave = rng.sample(alive, rng.choice([2, 2, 3]) if len(alive) > 2 else 1)
+            if rng.random() < 0.6:
+                leave.sort(key=lambda l: int(l[1:]))           # ascending: the highest id last
+            for l in leave:
+                despawn(l)
+                if rng.random() < 0.3:
+                    ops.append("fan.feed %d" % rng.choice([1, 2]))
+            for _ in range(len(leave) + rng.choice([0, 0, 1])):
+                spawn()
+                if rng.random() < 0.3:
+                    ops.append("fan.feed 1")
+            ops.append("fan.feed %d" % rng.choice([2, ocap + 1, 9]))
+            if rng.random() < 0.5:
+                report()
+    elif kind in ("plain", "churn"):
         for _ in range(rng.choice([2, 4, 8]) if kind == "churn" else rng.choice([1, 2])):
             r = rng.random()
             if r < 0.4 or not alive:
@@ -103,7 +121,7 @@ def run(prop, tier, seed, verdict):
     os.makedirs(workdir, exist_ok=True)
     rng = random.Random(seed * 523 + 15)
     n = 192 if tier == "quick" else 3000
-    fixed = ["plain", "stuck", "stuck-others", "churn"]
+    fixed = ["plain", "stuck", "stuck-others", "churn", "reuse"]
     scripts = [gen_script(rng, i, fixed[i] if i < len(fixed) else None) for i in range(n)]
     nstress = 120 if tier == "quick" else 3000
     nrelay = 64 if tier == "quick" else 1500
